@@ -140,6 +140,10 @@ def run_case(case, rec):
         a1 = sph_avg(r, i, v, q, N)
         a2 = sph_avg(r, i, v, q, 2*N)
         ref_err = abs(a1 - a2)
+        if ref_err <= 1e-6*abs(a2):
+            # a third, non-nested rule guards against accidental agreement on sharply peaked integrands
+            a3 = sph_avg(r, i, v, q, int(2.6*N) + 1)
+            ref_err = max(ref_err, abs(a3 - a2))
         t0 = _time.perf_counter()
         one_hi = hi.Iq(q, hi.flat({kk: pars[kk] for kk in pars if kk not in ("scale", "background")})) if hi else one
         hi_budget[0] -= _time.perf_counter() - t0
